@@ -42,6 +42,56 @@ struct coll_policy
     {
         ::new (where) object(PP.maxns, PP.bs);
     }
+    //=== deliberately invalid calls (C16): release an already free node of the first requested size again ===//
+    static int nbad()
+    {
+        return 4;
+    }
+    static std::string bad_kind(int)
+    {
+        return "double_free";
+    }
+    template <class W>
+    static u8* bad_ptr(W&, int s, int i)
+    {
+        if (!list_kind<list_t>::double_free_checked)
+            return nullptr;
+        auto& o = asys<coll_policy>::obj(s);
+        std::vector<u8*> fr;
+        collect_free(o.pools_.get(std::size_t(PP.sizes[0])), fr);
+        if (fr.empty())
+            return nullptr;
+        if (i <= 1)
+            return std::size_t(i) < fr.size() ? fr[std::size_t(i)] : nullptr;
+        if (i == 2)
+            return fr.size() > 2 ? fr.back() : nullptr;
+        return fr.size() > 4 ? fr[fr.size() / 2] : nullptr;
+    }
+    template <class W>
+    static std::string bad_name(W& w, int s, int i)
+    {
+        u8* p = bad_ptr(w, s, i);
+        return fmt("deallocate_node(already free node at offset %ld, %ld)", p ? long(p - w.arena) : -1L, PP.sizes[0]);
+    }
+    template <class W>
+    static bool bad_enabled(W& w, int s, int i)
+    {
+        return bad_ptr(w, s, i) != nullptr;
+    }
+    template <class W>
+    static void bad_call(W& w, int s, int i)
+    {
+        asys<coll_policy>::obj(s).deallocate_node(bad_ptr(w, s, i), std::size_t(PP.sizes[0]));
+    }
+    template <class W>
+    static u64 digest(W&, int s)
+    {
+        auto& o = asys<coll_policy>::obj(s);
+        u64   d = u64(o.capacity_left()) ^ (u64(o.arena_.size()) << 40);
+        for (std::size_t i = 0; i < o.pools_.no_elements_; ++i)
+            d = d * 31 + o.pools_.array_[i].capacity();
+        return d;
+    }
     static bool fills_new()
     {
         return true;
